@@ -555,8 +555,11 @@ def stream_matrix_solve(c, N, matrix):
     rng = c.rng
     cases = []
     for _ in range(N):
-        nr = rng.choice([1, 2, 2, 3, 3, 4]); nc = nr if rng.random() < .85 else rng.choice([1, 2, 3, 4])
-        A = gen_int_matrix(rng, nr, nc)
+        if cases and rng.random() < .5:     # same matrix (and, below, the same Matrix object with its submatrix cache) as the previous case
+            A, nr, nc = cases[-1][:3]
+        else:
+            nr = rng.choice([1, 2, 2, 3, 3, 4]); nc = nr if rng.random() < .85 else rng.choice([1, 2, 3, 4])
+            A = gen_int_matrix(rng, nr, nc)
         lhs0, cons, rcons = gen_constraints(rng, nr, nc)
         if lhs0 is None and cons is None and rcons is None and rng.random() < .7:
             lhs0 = numpy.zeros(nc)
@@ -583,8 +586,13 @@ def stream_matrix_solve(c, N, matrix):
         req.append('solve|%s|%d|%d|%s|%s|%s|%s|%s|%s|%s|%d' % (fmat(A), nr, nc, fopt(rhs), fopt(lhs0), fcons(cons), fopt(rcons, fmask), fnum(atol), fnum(rtol), s.text(), lenient))
     ans = yield req
     ndis = nskip = 0
+    prevA = prevM = None
     for icase, ((A, nr, nc, rhs, lhs0, cons, rcons, atol, rtol, kind, vec, lenient), a) in enumerate(zip(cases, ans)):
-        M = mk_matrix(matrix, numpy.array(A, dtype=float).reshape(nr, nc), rng)
+        if A is prevA:
+            M = prevM; c.count('solve:matrix-object-reused')
+        else:
+            M = mk_matrix(matrix, numpy.array(A, dtype=float).reshape(nr, nc), rng)
+        prevA, prevM = A, M
         s = ScriptedSolver(kind, vec, matrix)
         kw = {}
         if lhs0 is not None: kw['lhs0'] = lhs0.copy()
@@ -802,6 +810,15 @@ def stream_constraints(c, N, solver, matrix, function):
             x = None; real = 'raised ' + exc_name(e)
         except Exception as e:
             x = None; real = 'foreign %s: %s' % (exc_name(e), str(e)[:80])
+        if sym and x is not None:
+            try:
+                with quiet():
+                    xo = solver.optimize('u', .5 * (u @ (An @ u)) - bn @ u, droptol=d, constrain=None if cons is None else cons.copy())
+                if not same_vec([float(v) for v in xo], [float(v) for v in x]):
+                    ndis += 1; c.failing_input('optimize:droptol-differs', 'legacy optimize(droptol=) returns %r, System.solve_constraints %r' % (list(xo), list(x)), dict(op='optimize', A=A, b=b, droptol=repr(d), constrain=fcons(cons)))
+                c.count('droptol:optimize-wrapper-compared')
+            except Exception as e:
+                ndis += 1; c.failing_input('optimize:droptol-differs', 'legacy optimize(droptol=) raised %s: %s where System.solve_constraints returned' % (exc_name(e), str(e)[:80]), dict(op='optimize', A=A, b=b, droptol=repr(d), constrain=fcons(cons)))
         c.case(('droptol', fmat(A), fnum(d), fcons(cons), sym), nontrivial=n > 1)
         c.count('droptol:' + ('returned' if x is not None else real.split(':')[0]))
         replay = dict(op='System.solve_constraints', A=A, b=b, droptol=repr(d), constrain=fcons(cons), symmetric=sym, real=real, model=a)
@@ -1079,7 +1096,11 @@ def e2e_linear(c, N, matrix):
                 with quiet():
                     x2 = M.solve(rhs.copy(), **args, **dict(kw, lhs0=l2))
                 scale = 1 + numpy.linalg.norm(x)
-                lim = 1e-6 * scale if tol == 0 else 1e-6 * scale + 4 * tol * numpy.linalg.norm(numpy.linalg.inv(A[numpy.ix_(I, J)]))
+                lhs2 = l2.copy()
+                for j, v in pres.items(): lhs2[j] = v
+                tol2 = max(atol, rtol * math.sqrt(float(nsq([r for r, i in zip(fr_residual(A, lhs2, rhs), I) if i]))))
+                # both answers are within their tolerance of the exact solution (each tolerance is relative to its own initial residual)
+                lim = 1e-6 * scale + 1.01 * (tol + tol2) * numpy.linalg.norm(numpy.linalg.inv(A[numpy.ix_(I, J)]), 2)
                 c.count('e2e-linear:initial-guess-compared')
                 if numpy.linalg.norm(x2 - x) > lim:
                     bad = ('matrix-solve:initial-guess-dependence', 'result changes by %.3e when only the initial guess changes' % numpy.linalg.norm(x2 - x))
@@ -1185,6 +1206,42 @@ def e2e_nonlinear(c, N, solver, matrix, function):
         else:
             c.traces += 1
     c.obligation('oracle:nonlinear-end-to-end', nbad == 0, 'exploration', '%d nonlinear / linear systems through System methods and legacy wrappers' % N)
+
+
+def e2e_arnoldi_reuse(c, N, solver, matrix, function):
+    """the Arnoldi method object is reused for a sequence of nearby linear systems A(y) u = b(y): every answer must still be certified"""
+    rng = c.rng
+    nbad = 0
+    for _ in range(N):
+        n = rng.choice([2, 3, 4])
+        R0 = numpy.array([[rng.uniform(-1, 1) for _ in range(n)] for _ in range(n)])
+        A = R0 + numpy.eye(n) * (n + 1); B = numpy.array([[rng.uniform(-1, 1) for _ in range(n)] for _ in range(n)])
+        b = numpy.array([rng.uniform(-2, 2) for _ in range(n)])
+        u = function.Argument('u', (n,)); y = function.Argument('y', ())
+        S = solver.System([(A + B * y) @ u - b * (1. + y)], trial='u')
+        m = solver.Arnoldi(maxiter=rng.choice([1, 2, 3]))
+        tol = rng.choice([1e-6, 1e-10, 1e-3])
+        cons = numpy.array([rng.uniform(-1, 1) if rng.random() < .3 else math.nan for _ in range(n)]) if rng.random() < .5 else None
+        free = numpy.ones(n, dtype=bool) if cons is None else numpy.isnan(cons)
+        for yv in [0.] + [rng.choice([.01, .1, -.05, 1., 0.]) for _ in range(3)]:
+            replay = dict(op='Arnoldi reuse', A=A.tolist(), B=B.tolist(), b=b.tolist(), y=yv, tol=tol, constrain=fcons(cons))
+            try:
+                with quiet():
+                    x = S.solve(arguments={'y': yv}, constrain={} if cons is None else {'u': cons.copy()}, tol=tol, maxiter=20, method=m)['u']
+                out = 'returned'
+            except (solver.SolverError, matrix.MatrixError) as e:
+                x = None; out = exc_name(e)
+            except Exception as e:
+                x = None; out = 'foreign'
+                nbad += 1; c.failing_input('arnoldi:foreign-exception:' + exc_name(e), 'reused Arnoldi raised %s: %s' % (exc_name(e), str(e)[:80]), replay)
+            c.case(('arnoldi', repr(replay))); c.count('e2e-arnoldi-reuse:' + out)
+            if x is None: continue
+            res = numpy.linalg.norm(((A + B * yv) @ x - b * (1. + yv))[free]) if numpy.isfinite(x).all() else math.nan
+            if not numpy.isfinite(x).all() or math.isnan(res) or res > tol * (1 + 1e-6) + 1e-12 or (cons is not None and not numpy.array_equal(x[~free], cons[~free])):
+                nbad += 1; c.failing_input('arnoldi:uncertified-answer', 'reused Arnoldi returned %r with free residual %.3e (tol %.0e)' % (x.tolist(), res, tol), replay)
+            else:
+                c.traces += 1
+    c.obligation('oracle:arnoldi-reuse', nbad == 0, 'exploration', '%d sequences of 4 nearby systems' % N)
 
 
 def e2e_time(c, N, solver, matrix, function):
@@ -1432,6 +1489,7 @@ def run(c):
                         ('constraints', stream_constraints(c, 120 if quick else 3000, solver, matrix, function))])
         guarded(c, 'linear', e2e_linear, 150 if quick else 6000, matrix)
         guarded(c, 'nonlinear', e2e_nonlinear, 50 if quick else 2500, solver, matrix, function)
+        guarded(c, 'arnoldi', e2e_arnoldi_reuse, 6 if quick else 200, solver, matrix, function)
         guarded(c, 'time', e2e_time, 6 if quick else 150, solver, matrix, function)
         guarded(c, 'project', e2e_project, 18 if quick else 300, matrix)
     for b in broken:
